@@ -1,6 +1,55 @@
-import DdsModel.Drv.Util
+import DdsModel.Encoder
+import DdsModel.Drv.C02
 namespace Dds.Drv
+open Dds
 
-def runC11 (_line : String) : String := "not-modelled"
+def parseEncOp (s : String) : Option EncOp :=
+  match splitColon s with
+  | ["w", w, h] => do some (.write (← nat? w) (← nat? h))
+  | ["k", w, h] => do some (.writeCancelled (← nat? w) (← nat? h))
+  | ["g", b] => some (.setGenerate (b == "1"))
+  | ["f"] => some .finish
+  | _ => none
+
+def encResName : EncRes → String
+  | .ok => "ok"
+  | .tooManySurfaces => "TooManySurfaces"
+  | .unexpectedSurfaceSize => "UnexpectedSurfaceSize"
+  | .cancelled => "Cancelled"
+  | .invalidSize => "InvalidSize"
+  | .invalidSizeMip => "InvalidSize"
+  | .missingSurfaces => "MissingSurfaces"
+  | .panic => "panic"
+
+def fmtEncInfo (e : Enc) : String :=
+  match e.iter.currentP with
+  | none => "panic"
+  | some none => "- done"
+  | some (some s) => s!"{s.w},{s.h},{s.len},{if s.level ≠ 0 then 1 else 0} more"
+
+def runEncOps (e : Enc) : List EncOp → List String → List String
+  | [], acc => acc.reverse
+  | op :: rest, acc =>
+    let (e', r) := e.step op
+    runEncOps e' rest (s!"{encResName r} {fmtEncInfo e'} {e'.written}" :: acc)
+
+/-- `E <kind> <w> <h> <d|-> <mips> <px> <format> <mulW> <mulH> <ops...>` -/
+def runC11 (line : String) : String :=
+  match toks line with
+  | "E" :: rest =>
+    match parseHeaderLine rest with
+    | none => "bad-case"
+    | some (hd, px, rest) =>
+      match rest with
+      | _fmt :: mw :: mh :: ops =>
+        match nat? mw, nat? mh, ops.mapM parseEncOp, layoutOf hd px with
+        | some mw, some mh, some ops, some (.ok L) =>
+          let e := Enc.new L mw mh
+          " | ".intercalate (s!"new {fmtEncInfo e} {e.written}" :: runEncOps e ops [])
+        | _, _, _, some (.error er) => s!"err {errName er}"
+        | _, _, _, none => "panic"
+        | _, _, _, _ => "bad-case"
+      | _ => "bad-case"
+  | _ => "bad-case"
 
 end Dds.Drv
